@@ -154,7 +154,7 @@ macro_rules! float_entries { ($v:ident, $F:ty, $ft:expr, $WD:ident) => {{
     for l in [1.0 as F, tiny_s, 1.0 / tiny_s, 0.37] {
         ent!($v, "Exp", $ft, "-", [l], Exp::<F>::new(l).ok().and_then(b::<_, F>)); }
     for (k, t, var) in [(0.25 as F, 1.0 as F, "Small"), (ulp_dn(1.0), 1.0, "Small"), (1.0, 2.0, "One"), (ulp_up(1.0), 1.0, "Large"),
-                        (2.5, 0.5, "Large"), (1e4, 1e-3, "Large"), (0.5, 1.0 / tiny_s, "Small"), (3.0, tiny_s, "Large")] {
+                        (2.5, 0.5, "Large"), (2.5, 0.75, "Large"), (2.625, 0.5, "Large"), (1e4, 1e-3, "Large"), (0.5, 1.0 / tiny_s, "Small"), (3.0, tiny_s, "Large")] {
         ent!($v, "Gamma", $ft, var, [k, t], Gamma::<F>::new(k, t).ok().and_then(b::<_, F>)); }
     for (k, var) in [(0.5 as F, "DoFAnythingElse"), (1.0, "DoFExactlyOne"), (2.0, "DoFAnythingElse"), (1.5, "DoFAnythingElse"), (3.0, "DoFAnythingElse"), (100.0, "DoFAnythingElse"), (2e4, "DoFAnythingElse")] {
         ent!($v, "ChiSquared", $ft, var, [k], ChiSquared::<F>::new(k).ok().and_then(b::<_, F>)); }
@@ -162,7 +162,7 @@ macro_rules! float_entries { ($v:ident, $F:ty, $ft:expr, $WD:ident) => {{
         ent!($v, "StudentT", $ft, "-", [k], StudentT::<F>::new(k).ok().and_then(b::<_, F>)); }
     for (m, n) in [(1.0 as F, 1.0 as F), (2.0, 2.0), (0.5, 10.0), (10.0, 3.0), (100.0, 0.5)] {
         ent!($v, "FisherF", $ft, "-", [m, n], FisherF::<F>::new(m, n).ok().and_then(b::<_, F>)); }
-    for (a, bb, var) in [(0.5 as F, 0.5 as F, "BC"), (1.0, 1.0, "BC"), (2.0, 3.0, "BB"), (3.0, 2.0, "BB"), (0.01, 0.02, "BC"), (1e3, 1e3, "BB"),
+    for (a, bb, var) in [(0.5 as F, 0.5 as F, "BC"), (1.0, 1.0, "BC"), (2.0, 3.0, "BB"), (2.0, 3.125, "BB"), (3.0, 2.0, "BB"), (0.01, 0.02, "BC"), (1e3, 1e3, "BB"),
                          (0.5, 2.0, "BC"), (2.0, 0.5, "BC"), (1.0, 3.0, "BC"), (ulp_up(1.0), 1.5, "BB"), (100.0, 0.05, "BC")] {
         ent!($v, "Beta", $ft, var, [a, bb], Beta::<F>::new(a, bb).ok().and_then(b::<_, F>)); }
     for (mn, mx, md, sh) in [(0.0 as F, 1.0 as F, 0.5 as F, 4.0 as F), (-5.0, 5.0, -5.0, 4.0), (0.0, 10.0, 10.0, 4.0), (0.0, 1.0, 0.3, 0.0), (2.0, 3.0, 2.5, 100.0), (-big_l, big_l, 0.0, 4.0)] {
@@ -186,12 +186,12 @@ macro_rules! float_entries { ($v:ident, $F:ty, $ft:expr, $WD:ident) => {{
     for (a, be) in [(1.0 as F, 0.0 as F), (2.0, 1.5), (1e2, -99.0), (1e-2, 0.0), (5.0, -4.0)] {
         ent!($v, "NormalInverseGaussian", $ft, "-", [a, be], NormalInverseGaussian::<F>::new(a, be).ok().and_then(b::<_, F>)); }
     let lam_max: F = if $ft == "f32" { 1e7 } else { 1e15 };
-    for (l, var) in [(0.5 as F, "Knuth"), (ulp_dn(12.0), "Knuth"), (12.0, "Rejection"), (ulp_up(12.0), "Rejection"), (100.0, "Rejection"), (lam_max, "Rejection"), (1e-3, "Knuth")] {
+    for (l, var) in [(0.5 as F, "Knuth"), (ulp_dn(12.0), "Knuth"), (12.0, "Rejection"), (ulp_up(12.0), "Rejection"), (100.0, "Rejection"), (100.25, "Rejection"), (lam_max, "Rejection"), (1e-3, "Knuth")] {
         ent!($v, "Poisson", $ft, var, [l], Poisson::<F>::new(l).ok().and_then(b::<_, F>)); }
     let zn_max: F = if $ft == "f32" { 1e6 } else { 1e15 };
     for (n, s) in [(1.0 as F, 0.0 as F), (10.0, 0.0), (10.0, 1.0), (10.0, ulp_up(1.0)), (10.0, ulp_dn(1.0)), (1000.0, 0.5), (zn_max, 2.0), (10.0, 10.0), (1.0, 0.25), (2.0, 0.0)] {
         ent!($v, "Zipf", $ft, "-", [n, s], Zipf::<F>::new(n, s).ok().and_then(bx::<_, F>)); }
-    for s in [2.0 as F, 1.05, 100.0, 10.0, 1.5] {
+    for s in [2.0 as F, 1.05, 100.0, 10.0, 1.5, 1.001, ulp_up(1.0)] {
         ent!($v, "Zeta", $ft, "-", [s], Zeta::<F>::new(s).ok().and_then(bx::<_, F>)); }
     let d64: Vec<F> = (0..64).map(|i| 0.01 * (1 + i) as F * (1 + i) as F).collect();
     for (al, var) in [(vec![0.05 as F, 0.025, 0.075, 0.0625], "FromBeta"), (vec![0.5, 2.0, 0.075, 7.0], "FromGamma"), (vec![1.0, 1.0], "FromGamma"),
@@ -209,18 +209,44 @@ macro_rules! float_entries { ($v:ident, $F:ty, $ft:expr, $WD:ident) => {{
     }
 }} }
 
+/// float trees with non-dyadic weights of length 7..15, built and then updated a few times (the
+/// state after an update history is not the state a fresh build gives: rounding differs)
+macro_rules! float_tree_entries { ($v:ident, $F:ty, $ft:expr, $n:expr) => {{
+    for k in 0..$n {
+        let mk = move || {
+            let mut rnd = crate::rng::Sm(0x7ee5 + k as u64 * 977);
+            let len = 7 + rnd.below(9) as usize;
+            let ws: Vec<$F> = (0..len).map(|_| (0.1 + (rnd.below(1 << 20) as f64 / (1u64 << 20) as f64) * 9.9) as $F).collect();
+            let mut t = WeightedTreeIndex::<$F>::new(ws.iter()).ok()?;
+            for _ in 0..(k % 4) {
+                let i = rnd.below(len as u64) as usize;
+                let w = (0.1 + (rnd.below(1 << 20) as f64 / (1u64 << 20) as f64) * 9.9) as $F;
+                let _ = t.update(i, w);
+            }
+            Some(t)
+        };
+        let params: Vec<f64> = match mk() { Some(t) => (0..t.len()).map(|i| t.get(i) as f64).collect(), None => vec![] };
+        $v.push(Entry { family: "WeightedTreeIndex", ft: $ft, params, variant: "after-updates",
+            make: Box::new(move || mk().and_then(b::<_, usize>)) });
+    }
+}} }
+
 pub fn registry() -> Vec<Entry> {
     let mut v: Vec<Entry> = vec![];
+    let ntrees = if cfg!(feature = "with_serde") { 120 } else { 6 };
+    float_tree_entries!(v, f32, "f32", ntrees);
+    float_tree_entries!(v, f64, "f64", ntrees);
     float_entries!(v, f32, "f32", WD32);
     float_entries!(v, f64, "f64", WD64);
     ent!(v, "StandardGeometric", "int", "-", [], bn::<_, u64>(StandardGeometric));
     for (n, p, var) in [(10u64, 0.0f64, "Constant"), (10, 1.0, "Constant"), (10, 0.3, "Binv"), (10, 0.7, "Binv flipped"), (19, 0.5, "Binv"), (100, 0.05, "Binv"),
-                        (100, 0.3, "Btpe"), (100, 0.7, "Btpe flipped"), (21, 0.5, "Btpe"), (1000, 0.5, "Btpe"), (1u64 << 62, 0.5, "Btpe"),
-                        (16_000_000, 3.14e-10, "Poisson"), (u64::MAX, 1e-19, "Binv"), (1u64 << 40, 1e-12, "Binv"), (1u64 << 62, 1e-30, "Poisson"), (40, 0.25, "Btpe")] {
+                        (100, 0.3, "Btpe"), (100, 0.305, "Btpe"), (100, 0.7, "Btpe flipped"), (1000, 0.5005, "Btpe"), (21, 0.5, "Btpe"), (1000, 0.5, "Btpe"), (1u64 << 62, 0.5, "Btpe"),
+                        (16_000_000, 3.14e-10, "Poisson"), (u64::MAX, 1e-19, "Binv"), (1u64 << 40, 1e-12, "Binv"), (1u64 << 62, 1e-30, "Poisson"), (40, 0.25, "Btpe"),
+                        (u64::MAX, 0.5, "Btpe"), (u64::MAX, 0.999, "Btpe flipped"), (1u64 << 63, 1e-18, "Binv"), (1u64 << 32, 2.5e-9, "Btpe")] {
         ent!(v, "Binomial", "int", var, [n, p], Binomial::new(n, p).ok().and_then(b::<_, u64>)); }
     for p in [1.0f64, 0.9, 2.0 / 3.0, 0.66, 0.5, 0.25, 0.01, 1e-9, 0.0, 1e-17] {
         ent!(v, "Geometric", "int", "-", [p], Geometric::new(p).ok().and_then(b::<_, u64>)); }
-    for (nn, k, s, var) in [(10u64, 5u64, 5u64, "HIN"), (9, 3, 5, "HIN"), (9, 6, 4, "HIN"), (100, 30, 20, "HIN"), (100, 70, 80, "HIN"), (1000, 500, 500, "H2PE"),
+    for (nn, k, s, var) in [(10u64, 5u64, 5u64, "HIN"), (9, 3, 5, "HIN"), (9, 6, 4, "HIN"), (100, 30, 20, "HIN"), (100, 70, 80, "HIN"), (1000, 500, 500, "H2PE"), (1000, 501, 500, "H2PE"),
                             (10000, 5000, 300, "H2PE"), (10000, 7000, 9000, "H2PE"), (40, 20, 20, "H2PE"), (1u64 << 40, 1 << 39, 1000, "H2PE"), (50, 0, 10, "HIN"), (50, 50, 10, "HIN")] {
         ent!(v, "Hypergeometric", "int", var, [nn, k, s], Hypergeometric::new(nn, k, s).ok().and_then(b::<_, u64>)); }
     for ws in [vec![2u32, 1, 1], vec![0, 3, 7, 0, 1], vec![1; 17]] {
